@@ -2,7 +2,10 @@ import Tw.Model.NetSim
 import Tw.Proofs.Conn
 
 /-!
-# C01 (online phase): the prefix invariant of the two-endpoint system
+# C01: lemmas about the shared online core used by the safety invariant
+
+Sequence arithmetic, lazy = eager, what a receiver accepts (ghost absolute indices), the sender-side
+bookkeeping (`PacketOk`, `FlOk`, `QueueOk`), what `flush` / `resend` / `ack_chunks` do to it.
 -/
 namespace Tw.NetSim
 open Tw.Conn Tw.Time
@@ -421,104 +424,6 @@ theorem ackChunks_window {sub : List Bytes} {o : Online} (hq : QueueOk sub o.res
     have : sub.length - i = dS := by omega
     omega
 
-/-! ## the invariant of one direction (`x` sends, `!x` receives) -/
-
-structure Dir (cfg : Cfg) (s : Sys) (x : Bool) : Prop where
-  inv : (s.ep x).Inv cfg
-  seq : (s.ep x).sequence = (s.sub x).length % 1024
-  ack : (s.ep (!x)).ack = (s.del (!x)).length % 1024
-  pre : s.del (!x) = (s.sub x).take (s.del (!x)).length
-  dle : (s.del (!x)).length ≤ (s.sub x).length
-  qlen : (s.ep x).resendQueue.length ≤ 512
-  qwin : (s.sub x).length ≤ (s.del (!x)).length + (s.ep x).resendQueue.length
-  q : QueueOk (s.sub x) (s.ep x).resendQueue
-  pk : PacketOk (s.sub x) (s.sub x).length (s.ep x).packet.chunks
-  pknv : NvOk (s.nvSub x) (s.ep x).packet.chunks
-  net : ∀ p ∈ s.net x, p.nSelf ≤ (s.sub x).length ∧ FlOk (s.sub x) p.nSelf p.pkt ∧ NvOk (s.nvSub x) p.pkt.chunks
-  acks : ∀ p ∈ s.net (!x), p.pkt.ack = p.dSelf % 1024 ∧ p.dSelf ≤ (s.del (!x)).length ∧
-    p.nPeer ≤ (s.sub x).length ∧ p.nPeer ≤ p.dSelf + 512
-  nvd : ∀ d ∈ s.nvDel (!x), d ∈ s.nvSub x
-
-theorem bool_ne {x z : Bool} (h : ¬ x = z) : x = !z := by
-  cases x <;> cases z <;> simp at h ⊢
-
-@[simp] theorem upd_same {α : Type} (f : Bool → α) (x : Bool) (v : α) : upd f x v x = v := by simp [upd]
-@[simp] theorem upd_not {α : Type} (f : Bool → α) (x : Bool) (v : α) : upd f x v (!x) = f (!x) := by
-  cases x <;> simp [upd]
-@[simp] theorem upd_not' {α : Type} (f : Bool → α) (x : Bool) (v : α) : upd f (!x) v x = f x := by
-  cases x <;> simp [upd]
-
-theorem Sys.init_dir (cfg : Cfg) (x : Bool) : Dir cfg Sys.init x := by
-  refine ⟨Online.new_inv cfg, rfl, rfl, rfl, by simp [Sys.init], by simp [Sys.init, Online.new], by simp [Sys.init],
-    ?_, ?_, ?_, ?_, ?_, ?_⟩
-  · intro i c h; simp [Sys.init, Online.new] at h
-  · exact PacketOk.nil _ _
-  · intro c hc; simp [Sys.init, Online.new, PacketContents.empty] at hc
-  · intro p hp; simp [Sys.init] at hp
-  · intro p hp; simp [Sys.init] at hp
-  · intro d hd; simp [Sys.init] at hd
-
-/-- what a move by `z` that only touches `z`'s sending side (send / flush / resend) preserves of the
-direction in which `z` is the receiver: its new datagrams carry its current ack -/
-theorem recv_role {cfg : Cfg} {s s' : Sys} {z : Bool} (h : Dir cfg s (!z))
-    (hep : s'.ep (!z) = s.ep (!z)) (hack : (s'.ep z).ack = (s.ep z).ack)
-    (hsub : s'.sub (!z) = s.sub (!z)) (hdel : s'.del z = s.del z) (hnet : s'.net (!z) = s.net (!z))
-    (hnv : s'.nvSub (!z) = s.nvSub (!z)) (hnvd : s'.nvDel z = s.nvDel z)
-    (fl : List Flushed) (hnetz : s'.net z = s.net z ++ stamp s z fl) (hfl : ∀ f ∈ fl, f.ack = (s.ep z).ack) :
-    Dir cfg s' (!z) := by
-  have hack0 := h.ack
-  have hpre := h.pre
-  have hdle := h.dle
-  have hqw := h.qwin
-  have hacks := h.acks
-  have hnvd0 := h.nvd
-  simp only [Bool.not_not] at hack0 hpre hdle hqw hacks hnvd0
-  refine ⟨by rw [hep]; exact h.inv, by rw [hep, hsub]; exact h.seq, ?_, ?_, ?_, by rw [hep]; exact h.qlen, ?_,
-    by rw [hep, hsub]; exact h.q, by rw [hep, hsub]; exact h.pk, by rw [hep, hnv]; exact h.pknv,
-    by rw [hnet, hsub, hnv]; exact h.net, ?_, ?_⟩
-  · simp only [Bool.not_not]; rw [hack, hdel]; exact hack0
-  · simp only [Bool.not_not]; rw [hdel, hsub]; exact hpre
-  · simp only [Bool.not_not]; rw [hdel, hsub]; exact hdle
-  · simp only [Bool.not_not]; rw [hdel, hsub, hep]; exact hqw
-  · simp only [Bool.not_not]
-    rw [hnetz, hdel, hsub]
-    intro p hp
-    rcases List.mem_append.mp hp with hp | hp
-    · exact hacks p hp
-    · simp only [stamp, List.mem_map] at hp
-      obtain ⟨f, hf, rfl⟩ := hp
-      simp only
-      refine ⟨by rw [hfl f hf]; exact hack0, Nat.le_refl _, Nat.le_refl _, ?_⟩
-      have := h.qlen
-      omega
-  · simp only [Bool.not_not]; rw [hnvd, hnv]; exact hnvd0
-
-/-- … and of the direction in which `z` sends, for a move that leaves the submission lists alone
-(flush / resend / the resend inside a delivery) -/
-theorem send_role_same {cfg : Cfg} {s s' : Sys} {z : Bool} (h : Dir cfg s z) (o' : Online)
-    (hep : s'.ep z = o') (hepo : s'.ep (!z) = s.ep (!z))
-    (hsub : s'.sub z = s.sub z) (hdel : s'.del (!z) = s.del (!z)) (hnetp : s'.net (!z) = s.net (!z))
-    (hnv : s'.nvSub z = s.nvSub z) (hnvd : s'.nvDel (!z) = s.nvDel (!z))
-    (fl : List Flushed) (hnetz : s'.net z = s.net z ++ stamp s z fl)
-    (hinv : o'.Inv cfg) (hseq : o'.sequence = (s.ep z).sequence)
-    (hql : o'.resendQueue.length ≤ 512) (hqw : (s.sub z).length ≤ (s.del (!z)).length + o'.resendQueue.length)
-    (hq : QueueOk (s.sub z) o'.resendQueue)
-    (hpk : PacketOk (s.sub z) (s.sub z).length o'.packet.chunks) (hpknv : NvOk (s.nvSub z) o'.packet.chunks)
-    (hfl : ∀ f ∈ fl, FlOk (s.sub z) (s.sub z).length f ∧ NvOk (s.nvSub z) f.chunks) :
-    Dir cfg s' z := by
-  refine ⟨by rw [hep]; exact hinv, by rw [hep, hsub, hseq]; exact h.seq, by rw [hepo, hdel]; exact h.ack,
-    by rw [hdel, hsub]; exact h.pre, by rw [hdel, hsub]; exact h.dle, by rw [hep]; exact hql,
-    by rw [hep, hsub, hdel]; exact hqw, by rw [hep, hsub]; exact hq, by rw [hep, hsub]; exact hpk,
-    by rw [hep, hnv]; exact hpknv, ?_, by rw [hnetp, hdel, hsub]; exact h.acks, by rw [hnvd, hnv]; exact h.nvd⟩
-  rw [hnetz, hsub, hnv]
-  intro p hp
-  rcases List.mem_append.mp hp with hp | hp
-  · exact h.net p hp
-  · simp only [stamp, List.mem_map] at hp
-    obtain ⟨f, hf, rfl⟩ := hp
-    exact ⟨Nat.le_refl _, (hfl f hf).1, (hfl f hf).2⟩
-
-/-- what `flush` emits -/
 theorem flush_fl {cfg : Cfg} {o : Online} (hinv : o.Inv cfg) {sub nv : List Bytes} {n : Nat}
     (hpk : PacketOk sub n o.packet.chunks) (hnv : NvOk nv o.packet.chunks) :
     ∀ f ∈ o.flush.2, FlOk sub n f ∧ NvOk nv f.chunks ∧ f.ack = o.ack := by
@@ -530,29 +435,7 @@ theorem flush_fl {cfg : Cfg} {o : Online} (hinv : o.Inv cfg) {sub nv : List Byte
     subst hf
     exact ⟨hpk.toFl (by have := hinv.cnt; rw [maxNumChunks_eq] at this; exact this) _ _ _, hnv, rfl⟩
 
-theorem step_flush {cfg : Cfg} {s : Sys} (h : ∀ x, Dir cfg s x) (z : Bool) (s' : Sys)
-    (he : step cfg s (.flush z) = some s') : ∀ x, Dir cfg s' x := by
-  simp only [step] at he
-  injection he with he
-  subst he
-  have hz := h z
-  have hfl := flush_fl hz.inv hz.pk hz.pknv
-  intro x
-  by_cases hx : x = z
-  · subst hx
-    refine send_role_same hz _ (by simp) (by simp) rfl rfl (by simp) rfl rfl _ (by simp)
-      (Online.flush_inv hz.inv) (Online.flush_sequence _) ?_ ?_ ?_ ?_ ?_ (fun f hf => ⟨(hfl f hf).1, (hfl f hf).2.1⟩)
-    · rw [Online.flush_resendQueue]; exact hz.qlen
-    · rw [Online.flush_resendQueue]; exact hz.qwin
-    · rw [Online.flush_resendQueue]; exact hz.q
-    · rw [Online.flush_packet_nil hz.inv]; exact PacketOk.nil _ _
-    · rw [Online.flush_packet_nil hz.inv]; intro c hc; simp at hc
-  · have hx' : x = !z := bool_ne hx
-    subst hx'
-    exact recv_role (h (!z)) (by simp) (by simp [Online.flush_ack]) rfl rfl (by simp) rfl rfl _ (by simp)
-      (fun f hf => (hfl f hf).2.2)
 
-/-- everything the invariant needs to know about `resend` -/
 theorem resend_facts {cfg : Cfg} (hc : cfg.Ok) {o : Online} (hinv : o.Inv cfg) {sub nv : List Bytes}
     (hq : QueueOk sub o.resendQueue) (hl : o.resendQueue.length ≤ 512)
     (hpk : PacketOk sub sub.length o.packet.chunks)
@@ -623,139 +506,6 @@ theorem resend_facts {cfg : Cfg} (hc : cfg.Ok) {o : Online} (hinv : o.Inv cfg) {
     obtain ⟨a, b, c⟩ := h3 f hf
     exact ⟨a, b, by rw [c]; rfl⟩
 
-theorem step_resend {cfg : Cfg} (hc : cfg.Ok) {s : Sys} (h : ∀ x, Dir cfg s x) (z : Bool) (s' : Sys)
-    (he : step cfg s (.resend z) = some s') : ∀ x, Dir cfg s' x := by
-  simp only [step] at he
-  cases hr : (s.ep z).resend cfg 0 .inactive with
-  | error e => rw [hr] at he; cases he
-  | ok r =>
-    obtain ⟨o, snd, fl⟩ := r
-    rw [hr] at he
-    injection he with he
-    subst he
-    have hz := h z
-    obtain ⟨f1, f2, f3, f4, f5, f6, f7, f8⟩ := resend_facts hc hz.inv hz.q hz.qlen hz.pk hz.pknv 0 .inactive hr
-    intro x
-    by_cases hx : x = z
-    · subst hx
-      exact send_role_same hz _ (by simp) (by simp) rfl rfl (by simp) rfl rfl _ (by simp)
-        f1 f2 (by rw [f4]; exact hz.qlen) (by rw [f4]; exact hz.qwin) f5 f6 f7
-        (fun f hf => ⟨(f8 f hf).1, (f8 f hf).2.1⟩)
-    · have hx' : x = !z := bool_ne hx
-      subst hx'
-      exact recv_role (h (!z)) (by simp) (by simpa using f3) rfl rfl (by simp) rfl rfl _ (by simp)
-        (fun f hf => (f8 f hf).2.2)
-
-theorem step_send {cfg : Cfg} (hc : cfg.Ok) {s : Sys} (h : ∀ x, Dir cfg s x) (z : Bool) (data : Bytes) (vital : Bool)
-    (s' : Sys) (he : step cfg s (.send z data vital) = some s') : ∀ x, Dir cfg s' x := by
-  simp only [step] at he
-  split at he
-  · cases he
-  · rename_i hguard
-    have hz := h z
-    rcases Online.send_spec hc hz.inv 0 data vital with ⟨_, hs⟩ | ⟨hacc, hs⟩
-    · rw [hs] at he
-      injection he with he; subst he; exact h
-    · rw [hs] at he
-      injection he with he
-      subst he
-      -- the state the chunk is queued into, and what was flushed to make room
-      have key : ∃ (ob : Online) (fl : List Flushed),
-          ob = (if (s.ep z).packet.canFit data.length vital = true then s.ep z else (s.ep z).flush.1) ∧
-          fl = (if (s.ep z).packet.canFit data.length vital = true then [] else (s.ep z).flush.2) ∧
-          ob.Inv cfg ∧ ob.sequence = (s.ep z).sequence ∧ ob.ack = (s.ep z).ack ∧
-          ob.resendQueue = (s.ep z).resendQueue ∧
-          PacketOk (s.sub z) (s.sub z).length ob.packet.chunks ∧ NvOk (s.nvSub z) ob.packet.chunks ∧
-          (∀ f ∈ fl, FlOk (s.sub z) (s.sub z).length f ∧ NvOk (s.nvSub z) f.chunks ∧ f.ack = (s.ep z).ack) := by
-        by_cases hf : (s.ep z).packet.canFit data.length vital = true
-        · exact ⟨s.ep z, [], by simp [hf], by simp [hf], hz.inv, rfl, rfl, rfl, hz.pk, hz.pknv, by simp⟩
-        · refine ⟨(s.ep z).flush.1, (s.ep z).flush.2, by simp [hf], by simp [hf], Online.flush_inv hz.inv, Online.flush_sequence _,
-            Online.flush_ack _, Online.flush_resendQueue _, ?_, ?_, flush_fl hz.inv hz.pk hz.pknv⟩
-          · rw [Online.flush_packet_nil hz.inv]; exact PacketOk.nil _ _
-          · rw [Online.flush_packet_nil hz.inv]; intro c hcm; simp at hcm
-      obtain ⟨ob, fl, hob, hfl, binv, bseq, back, bq, bpk, bnv, bfl⟩ := key
-      rw [← hob, ← hfl]
-      have hfit : ob.packet.canFit data.length vital = true ∨ ob.packet.chunks = [] := by
-        by_cases hf : (s.ep z).packet.canFit data.length vital = true
-        · left; rw [hob]; simp [hf]
-        · right; rw [hob]; simp only [hf]; exact Online.flush_packet_nil hz.inv
-      have qinv := Online.queued_inv binv 0 data vital hacc hfit
-      intro x
-      by_cases hx : x = z
-      · rw [hx]
-        cases vital with
-        | false =>
-          -- a non-vital chunk: the submission list of vital chunks is untouched
-          simp only [Bool.false_eq_true, if_false]
-          refine ⟨by simpa using qinv, ?_, ?_, ?_, ?_, ?_, ?_, ?_, ?_, ?_, ?_, ?_, ?_⟩
-          · simp [Online.queued, bseq]; exact hz.seq
-          · simp; exact hz.ack
-          · simp; exact hz.pre
-          · simp; exact hz.dle
-          · simp [Online.queued, bq]; exact hz.qlen
-          · simp [Online.queued, bq]; exact hz.qwin
-          · simp [Online.queued, bq]; exact hz.q
-          · simp [Online.queued]; exact bpk.appendNonvital data
-          · simp only [upd_same, Online.queued, Bool.false_eq_true, if_false]
-            intro c hcm hv
-            rcases List.mem_append.mp hcm with hcm | hcm
-            · exact List.mem_append_left _ (bnv c hcm hv)
-            · simp at hcm; subst hcm; simp
-          · simp only [upd_same]
-            intro p hp
-            rcases List.mem_append.mp hp with hp | hp
-            · obtain ⟨a, b, c⟩ := hz.net p hp
-              exact ⟨a, b, c.mono _⟩
-            · simp only [stamp, List.mem_map] at hp
-              obtain ⟨f, hf, rfl⟩ := hp
-              exact ⟨Nat.le_refl _, (bfl f hf).1, (bfl f hf).2.1.mono _⟩
-          · simp; exact hz.acks
-          · simp only [upd_same, upd_not]
-            intro d hd; exact List.mem_append_left _ (hz.nvd d hd)
-        | true =>
-          simp only [if_true]
-          have hq512 : (s.ep z).resendQueue.length < 512 := by
-            simp [h1Limit] at hguard
-            omega
-          have hseq' : seqNext ob.sequence = ((s.sub z).length + 1) % 1024 := by
-            rw [bseq, hz.seq, seqNext_eq]; omega
-          have hdle := hz.dle
-          refine ⟨by simpa using qinv, ?_, ?_, ?_, ?_, ?_, ?_, ?_, ?_, ?_, ?_, ?_, ?_⟩
-          · simp [Online.queued, hseq']
-          · simp; exact hz.ack
-          · simp only [upd_same, upd_not]
-            rw [List.take_append_of_le_length hdle]; exact hz.pre
-          · simp; omega
-          · simp [Online.queued, bq]; omega
-          · simp [Online.queued, bq]; have := hz.qwin; omega
-          · simp only [upd_same, Online.queued, if_true, bq, hseq']
-            exact hz.q.push _ data
-          · simp only [upd_same, Online.queued, if_true, hseq', List.length_append, List.length_singleton]
-            exact bpk.submit data false
-          · simp only [upd_same, Online.queued, if_true]
-            intro c hcm hv
-            rcases List.mem_append.mp hcm with hcm | hcm
-            · exact bnv c hcm hv
-            · simp at hcm; subst hcm; simp at hv
-          · simp only [upd_same]
-            intro p hp
-            rcases List.mem_append.mp hp with hp | hp
-            · obtain ⟨a, b, c⟩ := hz.net p hp
-              exact ⟨by simp; omega, b.mono _, c⟩
-            · simp only [stamp, List.mem_map] at hp
-              obtain ⟨f, hf, rfl⟩ := hp
-              exact ⟨by simp, (bfl f hf).1.mono _, (bfl f hf).2.1⟩
-          · simp only [upd_same, upd_not]
-            intro p hp
-            obtain ⟨a, b, c, d⟩ := hz.acks p hp
-            exact ⟨a, b, by simp; omega, d⟩
-          · simp; exact hz.nvd
-      · have hx' : x = !z := bool_ne hx
-        subst hx'
-        refine recv_role (h (!z)) (by simp) ?_ ?_ rfl (by simp) ?_ rfl fl (by simp) (fun f hf => (bfl f hf).2.2)
-        · simp only [upd_same]; cases vital <;> simp [Online.queued, back]
-        · cases vital <;> simp
-        · cases vital <;> simp
 
 theorem ackChunks_fields (o : Online) (a : Nat) :
     (o.ackChunks a).ack = o.ack ∧ (o.ackChunks a).sequence = o.sequence ∧ (o.ackChunks a).packet = o.packet ∧
@@ -768,165 +518,230 @@ theorem ackChunks_fields (o : Online) (a : Nat) :
     simp only [List.length_take]; omega
   · exact ⟨rfl, rfl, rfl, rfl, rfl, Nat.le_refl _, o.resendQueue.length, by simp⟩
 
-theorem vitalPayloads_length_le (evs : List Event) : True := trivial
 
-theorem step_deliver {cfg : Cfg} (hc : cfg.Ok) {s : Sys} (h : ∀ x, Dir cfg s x) (z : Bool) (i : Nat) (s' : Sys)
-    (he : step cfg s (.deliver z i) = some s') : ∀ x, Dir cfg s' x := by
-  simp only [step] at he
-  cases hp : (s.net (!z))[i]? with
-  | none => rw [hp] at he; cases he
-  | some p =>
-    rw [hp] at he
-    simp only at he
+/-! ## the tight delay window
+
+`unwrap c s` decodes a 10-bit counter value against the sender's absolute counter at send time; on a
+value at most 1023 behind it is exact. -/
+
+theorem unwrap_eq {c q s : Nat} (h1 : q ≤ c) (h2 : c < q + 1024) (hs : s = q % 1024) : unwrap c s = q := by
+  unfold unwrap
+  rw [seqMod_eq]
+  subst hs
+  omega
+
+/-- **the acceptance lemma, tight form**: the packet was stamped `N` (every vital chunk is one of the
+sender's chunks `k` with `k < N ≤ k + 767`), the sender is at most 512 ahead of the receiver
+(`N ≤ D + 512`), and no chunk is 1024 or more behind the sequence number `D + 1` the receiver
+waited for when the packet arrived.  Scanning from any `d` reached inside this packet hands over
+exactly the next `m` chunks. -/
+theorem receive_tight (sub : List Bytes) (N D : Nat) (hN : N ≤ D + 512) :
+    ∀ (cs : List Chunk) (d : Nat) (rr : Bool), D ≤ d → (d = D ∨ d ≤ N) → d ≤ sub.length →
+      (∀ c ∈ cs, ∀ seq r, c.vital = some (seq, r) →
+        ∃ k, k < N ∧ N ≤ k + 767 ∧ D < k + 1024 ∧ IsChunk sub k seq c.data) →
+      ∃ m, d + m ≤ sub.length ∧ vitalPayloads (receiveLazy (d % 1024) cs) = (sub.drop d).take m ∧
+        (receiveEager (d % 1024) rr cs).1 = (d + m) % 1024 := by
+  intro cs
+  induction cs with
+  | nil => intro d rr _ _ hd _; exact ⟨0, by omega, by simp [receiveLazy, vitalPayloads], by simp [receiveEager]⟩
+  | cons c cs ih =>
+    intro d rr hDd hdN hd hk
+    have hk' : ∀ c' ∈ cs, ∀ seq r, c'.vital = some (seq, r) →
+        ∃ k, k < N ∧ N ≤ k + 767 ∧ D < k + 1024 ∧ IsChunk sub k seq c'.data :=
+      fun c' hc' => hk c' (List.mem_cons_of_mem _ hc')
+    unfold receiveLazy receiveEager
+    cases hv : c.vital with
+    | none =>
+      obtain ⟨m, h1, h2, h3⟩ := ih d rr hDd hdN hd hk'
+      exact ⟨m, h1, by simpa [vitalPayloads] using h2, by simpa using h3⟩
+    | some v =>
+      obtain ⟨seq, r⟩ := v
+      obtain ⟨k, hkn, hkw, hkD, hch⟩ := hk c (by simp) seq r hv
+      simp only
+      by_cases hacc : seqNext (d % 1024) = seq
+      · have hkd : k = d := by
+          have := hch.2
+          rw [seqNext_eq] at hacc
+          omega
+        subst hkd
+        have hks : k < sub.length := (List.getElem?_eq_some_iff.mp hch.1).1
+        have h1 : (seqUpdate (k % 1024) seq).2 = .current := (seqUpdate_snd _ _).mpr hacc
+        have h2 : (seqUpdate (k % 1024) seq).1 = (k + 1) % 1024 := by
+          rw [seqUpdate_fst, if_pos hacc, hch.2]
+        obtain ⟨m, hm1, hm2, hm3⟩ := ih (k + 1) (rr || (seqUpdate (k % 1024) seq).2 != .current) (by omega)
+          (Or.inr (by omega)) (by omega) hk'
+        refine ⟨m + 1, by omega, ?_, ?_⟩
+        · simp only [h1, if_true, vitalPayloads]
+          rw [h2, hm2]
+          rw [List.drop_eq_getElem_cons hks, List.take_succ_cons]
+          have := hch.1
+          rw [List.getElem?_eq_getElem hks] at this
+          injection this with this
+          rw [this]
+        · rw [h2, hm3]; congr 1; omega
+      · have h1 : (seqUpdate (d % 1024) seq).2 ≠ .current := fun h => hacc ((seqUpdate_snd _ _).mp h)
+        have h2 : (seqUpdate (d % 1024) seq).1 = d % 1024 := by rw [seqUpdate_fst, if_neg hacc]
+        obtain ⟨m, hm1, hm2, hm3⟩ := ih d (rr || (seqUpdate (d % 1024) seq).2 != .current) hDd hdN hd hk'
+        refine ⟨m, hm1, ?_, ?_⟩
+        · simp only [h1, if_false]; exact hm2
+        · rw [h2]; exact hm3
+
+/-! ## the sender side of one endpoint, as one predicate -/
+
+/-- what the invariant says about an online state as the *sender* of the vital chunks `sub` (and
+non-vital chunks `nv`), of which the peer has been handed the first `d` -/
+structure SendOk (cfg : Cfg) (o : Online) (sub nv : List Bytes) (d : Nat) : Prop where
+  inv : o.Inv cfg
+  seq : o.sequence = sub.length % 1024
+  qlen : o.resendQueue.length ≤ 512
+  qwin : sub.length ≤ d + o.resendQueue.length
+  q : QueueOk sub o.resendQueue
+  pk : PacketOk sub sub.length o.packet.chunks
+  pknv : NvOk nv o.packet.chunks
+
+/-- what the invariant says about freshly emitted chunk packets -/
+def FlsOk (sub nv : List Bytes) (ack : Nat) (fl : List Flushed) : Prop :=
+  ∀ f ∈ fl, FlOk sub sub.length f ∧ NvOk nv f.chunks ∧ f.ack = ack
+
+theorem SendOk.new (cfg : Cfg) : SendOk cfg .new [] [] 0 := by
+  refine ⟨Online.new_inv cfg, rfl, by simp [Online.new], by simp [Online.new], ?_, PacketOk.nil _ _, ?_⟩
+  · intro i c h; simp [Online.new] at h
+  · intro c hc; simp [Online.new, PacketContents.empty] at hc
+
+theorem SendOk.mono {cfg : Cfg} {o : Online} {sub nv : List Bytes} {d d' : Nat} (h : SendOk cfg o sub nv d)
+    (hd : d ≤ d') : SendOk cfg o sub nv d' :=
+  ⟨h.inv, h.seq, h.qlen, by have := h.qwin; omega, h.q, h.pk, h.pknv⟩
+
+/-- the receive-side fields are not looked at -/
+theorem SendOk.setAck {cfg : Cfg} {o : Online} {sub nv : List Bytes} {d : Nat} (h : SendOk cfg o sub nv d)
+    (a : Nat) (rr : Bool) : SendOk cfg { o with ack := a, requestResend := rr } sub nv d :=
+  ⟨⟨h.inv.pn, h.inv.pnv, h.inv.nv, h.inv.cnt, h.inv.size, h.inv.data, h.inv.rq⟩, h.seq, h.qlen, h.qwin, h.q, h.pk, h.pknv⟩
+
+theorem SendOk.flush {cfg : Cfg} {o : Online} {sub nv : List Bytes} {d : Nat} (h : SendOk cfg o sub nv d) :
+    SendOk cfg o.flush.1 sub nv d ∧ FlsOk sub nv o.ack o.flush.2 ∧ o.flush.1.ack = o.ack := by
+  refine ⟨⟨Online.flush_inv h.inv, by rw [Online.flush_sequence]; exact h.seq,
+    by rw [Online.flush_resendQueue]; exact h.qlen, by rw [Online.flush_resendQueue]; exact h.qwin,
+    by rw [Online.flush_resendQueue]; exact h.q, ?_, ?_⟩, flush_fl h.inv h.pk h.pknv, Online.flush_ack o⟩
+  · rw [Online.flush_packet_nil h.inv]; exact PacketOk.nil _ _
+  · rw [Online.flush_packet_nil h.inv]; intro c hc; simp at hc
+
+theorem SendOk.resend {cfg : Cfg} (hc : cfg.Ok) {o : Online} {sub nv : List Bytes} {d : Nat}
+    (h : SendOk cfg o sub nv d) {now : Nat} {send : Timeout} {o' : Online} {send' : Timeout} {fl : List Flushed}
+    (he : o.resend cfg now send = .ok (o', send', fl)) :
+    SendOk cfg o' sub nv d ∧ FlsOk sub nv o.ack fl ∧ o'.ack = o.ack := by
+  obtain ⟨f1, f2, f3, f4, f5, f6, f7, f8⟩ := resend_facts hc h.inv h.q h.qlen h.pk h.pknv now send he
+  exact ⟨⟨f1, by rw [f2]; exact h.seq, by rw [f4]; exact h.qlen, by rw [f4]; exact h.qwin, f5, f6, f7⟩, f8, f3⟩
+
+/-- `send`: a refused payload changes nothing; an accepted one is queued (after a flush if it did not
+fit).  A vital chunk needs H1. -/
+theorem SendOk.send {cfg : Cfg} (hc : cfg.Ok) {o : Online} {sub nv : List Bytes} {d : Nat}
+    (h : SendOk cfg o sub nv d) {now : Nat} {data : Bytes} {vital : Bool}
+    {o' : Online} {r : SendRes} {fl : List Flushed}
+    (he : o.send cfg now data vital = .ok (o', r, fl)) :
+    (r = .tooLongData ∧ o' = o ∧ fl = []) ∨
+    (r = .ok ∧ FlsOk sub nv o.ack fl ∧ o'.ack = o.ack ∧
+      (vital = false → SendOk cfg o' sub (nv ++ [data]) d) ∧
+      (vital = true → o.resendQueue.length < 512 → SendOk cfg o' (sub ++ [data]) nv d)) := by
+  rcases Online.send_spec hc h.inv now data vital with ⟨_, hs⟩ | ⟨hacc, hs⟩
+  · rw [hs] at he
+    injection he with he; injection he with e1 e2; injection e2 with e2 e3
+    exact Or.inl ⟨e2.symm, e1.symm, e3.symm⟩
+  · rw [hs] at he
+    injection he with he; injection he with e1 e2; injection e2 with e2 e3
+    right
+    refine ⟨e2.symm, ?_⟩
+    have key : ∃ (ob : Online) (fl0 : List Flushed),
+        ob = (if o.packet.canFit data.length vital = true then o else o.flush.1) ∧
+        fl0 = (if o.packet.canFit data.length vital = true then [] else o.flush.2) ∧
+        SendOk cfg ob sub nv d ∧ ob.ack = o.ack ∧ ob.sequence = o.sequence ∧ ob.resendQueue = o.resendQueue ∧
+        FlsOk sub nv o.ack fl0 ∧ (ob.packet.canFit data.length vital = true ∨ ob.packet.chunks = []) := by
+      by_cases hf : o.packet.canFit data.length vital = true
+      · exact ⟨o, [], by simp [hf], by simp [hf], h, rfl, rfl, rfl, by intro f hf; simp at hf, Or.inl hf⟩
+      · obtain ⟨a, b, c⟩ := h.flush
+        exact ⟨o.flush.1, o.flush.2, by simp [hf], by simp [hf], a, c, Online.flush_sequence _,
+          Online.flush_resendQueue _, b, Or.inr (Online.flush_packet_nil h.inv)⟩
+    obtain ⟨ob, fl0, hob, hfl0, bok, back, bseq, bq, bfl, hfit⟩ := key
+    rw [← hob] at e1
+    rw [← hfl0] at e3
+    subst e1 e3
+    have qinv := Online.queued_inv bok.inv now data vital hacc hfit
+    refine ⟨bfl, ?_, ?_, ?_⟩
+    · cases vital <;> simp [Online.queued, back]
+    · intro hv
+      subst hv
+      refine ⟨qinv, ?_, ?_, ?_, ?_, ?_, ?_⟩
+      · simp [Online.queued]; exact bok.seq
+      · simp [Online.queued]; exact bok.qlen
+      · simp [Online.queued]; exact bok.qwin
+      · simp [Online.queued]; exact bok.q
+      · simp [Online.queued]; exact bok.pk.appendNonvital data
+      · simp only [Online.queued, Bool.false_eq_true, if_false]
+        intro c hcm hv
+        rcases List.mem_append.mp hcm with hcm | hcm
+        · exact List.mem_append_left _ (bok.pknv c hcm hv)
+        · simp at hcm; subst hcm; simp
+    · intro hv hq512
+      subst hv
+      have hseq' : seqNext ob.sequence = (sub.length + 1) % 1024 := by
+        rw [bok.seq, seqNext_eq]; omega
+      refine ⟨qinv, ?_, ?_, ?_, ?_, ?_, ?_⟩
+      · simp [Online.queued, hseq']
+      · simp [Online.queued, bq]; omega
+      · simp [Online.queued, bq]; have := h.qwin; omega
+      · simp only [Online.queued, if_true, hseq']
+        exact bok.q.push _ data
+      · simp only [Online.queued, if_true, hseq', List.length_append, List.length_singleton]
+        exact bok.pk.submit data false
+      · simp only [Online.queued, if_true]
+        intro c hcm hv
+        rcases List.mem_append.mp hcm with hcm | hcm
+        · exact bok.pknv c hcm hv
+        · simp at hcm; subst hcm; simp at hv
+
+/-- processing an ack `dS mod 1024` that is at most 1023 behind the own counter -/
+theorem SendOk.ack {cfg : Cfg} {o : Online} {sub nv : List Bytes} {d : Nat} (h : SendOk cfg o sub nv d)
+    (hd : d ≤ sub.length) {dS : Nat} (h1 : dS ≤ d) (hwin : sub.length < dS + 1024) :
+    SendOk cfg (o.ackChunks (dS % 1024)) sub nv d ∧ (o.ackChunks (dS % 1024)).ack = o.ack := by
+  obtain ⟨ka, ks, kp, kpn, krr, kql, ki, kq⟩ := ackChunks_fields o (dS % 1024)
+  refine ⟨⟨Online.ackChunks_inv h.inv _, by rw [ks]; exact h.seq, Nat.le_trans kql h.qlen,
+    ackChunks_window h.q h.qlen dS d h1 hd hwin h.qwin, by rw [kq]; exact h.q.take ki,
+    by rw [kp]; exact h.pk, by rw [kp]; exact h.pknv⟩, ka⟩
+
+theorem feedAck_eq {o o1 : Online} {a : Nat} (h : o.feedAck a = .ok o1) : o1 = o.ackChunks a := by
+  unfold Online.feedAck at h
+  split at h
+  · cases h
+  · injection h with h; exact h.symm
+
+/-- `receive` opened: the optional resend, then the two scans from the same ack -/
+theorem SendOk.receive {cfg : Cfg} (hc : cfg.Ok) {o : Online} {sub nv : List Bytes} {d : Nat}
+    (h : SendOk cfg o sub nv d) {now : Nat} {send : Timeout} {rr : Bool} {cs : List Chunk}
+    {o2 : Online} {send2 : Timeout} {fl : List Flushed} {evs : List Event}
+    (he : o.receive cfg now send rr cs = .ok (o2, send2, fl, evs)) :
+    SendOk cfg o2 sub nv d ∧ FlsOk sub nv o.ack fl ∧
+      ∃ rr0, o2.ack = (receiveEager o.ack rr0 cs).1 ∧ evs = receiveLazy o.ack cs := by
+  unfold Online.receive at he
+  cases hrr : rr with
+  | false =>
+    simp only [hrr, Bool.false_eq_true, if_false] at he
     split at he
     · cases he
-    · rename_i hguard
-      have hpm : p ∈ s.net (!z) := List.mem_of_getElem? hp
-      have hg1 : (s.sub (!z)).length - p.nSelf < 256 := by
-        simp only [h2Limit, ge_iff_le, not_or, Nat.not_le] at hguard; exact hguard.1
-      have hg2 : (s.sub z).length - p.nPeer < 256 := by
-        simp only [h2Limit, ge_iff_le, not_or, Nat.not_le] at hguard; exact hguard.2
-      have hz := h z
-      have hy := h (!z)
-      -- facts about the datagram: as a carrier of acks (direction z) and of chunks (direction !z)
-      obtain ⟨pa1, pa2, pa3, pa4⟩ := hz.acks p hpm
-      obtain ⟨pn1, pn2, pn3⟩ := hy.net p hpm
-      cases hfa : (s.ep z).feedAck p.pkt.ack with
-      | error e => rw [hfa] at he; cases he
-      | ok o1 =>
-        rw [hfa] at he
-        simp only at he
-        have ho1 : o1 = (s.ep z).ackChunks p.pkt.ack := by
-          unfold Online.feedAck at hfa
-          split at hfa
-          · cases hfa
-          · injection hfa with hfa; exact hfa.symm
-        obtain ⟨ka, ks, kp, kpn, krr, kql, ki, kq⟩ := ackChunks_fields (s.ep z) p.pkt.ack
-        rw [← ho1] at ka ks kp kpn krr kql kq
-        have hinv1 : o1.Inv cfg := by rw [ho1]; exact Online.ackChunks_inv hz.inv _
-        have hq1 : QueueOk (s.sub z) o1.resendQueue := by rw [kq]; exact hz.q.take ki
-        have hql1 : o1.resendQueue.length ≤ 512 := Nat.le_trans kql hz.qlen
-        have hqw1 : (s.sub z).length ≤ (s.del (!z)).length + o1.resendQueue.length := by
-          rw [ho1, pa1]
-          exact ackChunks_window hz.q hz.qlen p.dSelf _ pa2 hz.dle (by omega) hz.qwin
-        have hpk1 : PacketOk (s.sub z) (s.sub z).length o1.packet.chunks := by rw [kp]; exact hz.pk
-        have hnv1 : NvOk (s.nvSub z) o1.packet.chunks := by rw [kp]; exact hz.pknv
-        cases hrc : o1.receive cfg 0 .inactive p.pkt.requestResend p.pkt.chunks with
-        | error e => rw [hrc] at he; cases he
-        | ok r =>
-          obtain ⟨o2, snd2, fl, evs⟩ := r
-          rw [hrc] at he
-          injection he with he
-          subst he
-          -- open `receive`: the optional resend, then the scan
-          have key : ∃ o1' : Online,
-              o1'.Inv cfg ∧ o1'.sequence = o1.sequence ∧ o1'.ack = o1.ack ∧
-              o1'.resendQueue.length = o1.resendQueue.length ∧ QueueOk (s.sub z) o1'.resendQueue ∧
-              PacketOk (s.sub z) (s.sub z).length o1'.packet.chunks ∧ NvOk (s.nvSub z) o1'.packet.chunks ∧
-              (∀ f ∈ fl, FlOk (s.sub z) (s.sub z).length f ∧ NvOk (s.nvSub z) f.chunks ∧ f.ack = o1.ack) ∧
-              o2 = { o1' with ack := (receiveEager o1'.ack o1'.requestResend p.pkt.chunks).1,
-                              requestResend := (receiveEager o1'.ack o1'.requestResend p.pkt.chunks).2 } ∧
-              evs = receiveLazy o1'.ack p.pkt.chunks := by
-            unfold Online.receive at hrc
-            cases hrr : p.pkt.requestResend with
-            | false =>
-              simp only [hrr, Bool.false_eq_true, if_false] at hrc
-              split at hrc
-              · cases hrc
-              · injection hrc with hrc; injection hrc with e1 e2; injection e2 with e2 e3; injection e3 with e3 e4
-                subst e3
-                exact ⟨o1, hinv1, rfl, rfl, rfl, hq1, hpk1, hnv1, by simp, e1.symm, e4.symm⟩
-            | true =>
-              simp only [hrr, if_true] at hrc
-              cases hrs : o1.resend cfg 0 .inactive with
-              | error e => rw [hrs] at hrc; cases hrc
-              | ok r2 =>
-                obtain ⟨o1', s1', fl1⟩ := r2
-                rw [hrs] at hrc
-                simp only at hrc
-                split at hrc
-                · cases hrc
-                · injection hrc with hrc; injection hrc with e1 e2; injection e2 with e2 e3; injection e3 with e3 e4
-                  subst e3
-                  obtain ⟨f1, f2, f3, f4, f5, f6, f7, f8⟩ := resend_facts hc hinv1 hq1 hql1 hpk1 hnv1 0 .inactive hrs
-                  exact ⟨o1', f1, f2, f3, f4, f5, f6, f7, f8, e1.symm, e4.symm⟩
-          obtain ⟨o1', g1, g2, g3, g4, g5, g6, g7, g8, g9, g10⟩ := key
-          have hinv2 : o2.Inv cfg := by
-            rw [g9]; exact ⟨g1.pn, g1.pnv, g1.nv, g1.cnt, g1.size, g1.data, g1.rq⟩
-          -- what the receiver z is handed: the next m chunks of !z
-          have hknown : ChunksKnown (s.sub (!z)) (s.sub (!z)).length p.pkt.chunks := by
-            intro c hcm seq r hv
-            obtain ⟨k, k1, k2, k3⟩ := pn2 c hcm seq r hv
-            exact ⟨k, by omega, by omega, k3⟩
-          have hyack := hy.ack
-          have hypre := hy.pre
-          have hydle := hy.dle
-          have hyqw := hy.qwin
-          have hyacks := hy.acks
-          have hynvd := hy.nvd
-          simp only [Bool.not_not] at hyack hypre hydle hyqw hyacks hynvd
-          have hyql := hy.qlen
-          obtain ⟨m, m1, m2, m3⟩ := receive_known (s.sub (!z)) _ rfl p.pkt.chunks (s.del z).length o1'.requestResend
-            hydle (by omega) hknown
-          have hstart : o1'.ack = (s.del z).length % 1024 := by rw [g3, ka]; exact hyack
-          have hlen : (vitalPayloads evs).length = m := by
-            rw [g10, hstart, m2, List.length_take, List.length_drop]; omega
-          intro x
-          by_cases hx : x = z
-          · rw [hx]
-            refine send_role_same hz o2 (by simp) (by simp) rfl (by simp) (by simp) rfl (by simp) fl (by simp)
-              hinv2 (by rw [g9]; simp [g2, ks]) (by rw [g9]; simp only; rw [g4]; exact hql1)
-              (by rw [g9]; simp only; rw [g4]; exact hqw1) (by rw [g9]; exact g5) (by rw [g9]; exact g6)
-              (by rw [g9]; exact g7) (fun f hf => ⟨(g8 f hf).1, (g8 f hf).2.1⟩)
-          · have hx' : x = !z := bool_ne hx
-            rw [hx']
-            refine ⟨by simpa using hy.inv, by simpa using hy.seq, ?_, ?_, ?_, by simpa using hy.qlen, ?_,
-              by simpa using hy.q, by simpa using hy.pk, by simpa using hy.pknv, by simpa using hy.net, ?_, ?_⟩
-            · simp only [Bool.not_not, upd_same, List.length_append, hlen]
-              rw [g9]; simp only
-              rw [hstart]; exact m3
-            · simp only [Bool.not_not, upd_same, List.length_append, hlen]
-              rw [g10, hstart, m2]
-              rw [List.take_add]
-              rw [← hypre]
-            · simp only [Bool.not_not, upd_same, List.length_append, hlen]; exact m1
-            · simp only [Bool.not_not, upd_same, upd_not, List.length_append, hlen]; omega
-            · simp only [Bool.not_not, upd_same, upd_not, List.length_append, hlen]
-              intro p' hp'
-              rcases List.mem_append.mp hp' with hp' | hp'
-              · obtain ⟨a, b, c, d⟩ := hyacks p' hp'
-                exact ⟨a, by omega, c, d⟩
-              · simp only [stamp, List.mem_map] at hp'
-                obtain ⟨f, hf, rfl⟩ := hp'
-                simp only
-                refine ⟨by rw [(g8 f hf).2.2, ka]; exact hyack, by omega, Nat.le_refl _, by omega⟩
-            · simp only [Bool.not_not, upd_same, upd_not]
-              intro d hd
-              rcases List.mem_append.mp hd with hd | hd
-              · exact hynvd d hd
-              · rw [g10] at hd
-                obtain ⟨c, hcm, hv, rfl⟩ := nonvital_mem _ _ d hd
-                exact pn3 c hcm hv
-
-/-- **the invariant is inductive** -/
-theorem step_dir {cfg : Cfg} (hc : cfg.Ok) {s s' : Sys} (h : ∀ x, Dir cfg s x) (m : Move)
-    (he : step cfg s m = some s') : ∀ x, Dir cfg s' x := by
-  cases m with
-  | send z d v => exact step_send hc h z d v s' he
-  | flush z => exact step_flush h z s' he
-  | resend z => exact step_resend hc h z s' he
-  | deliver z i => exact step_deliver hc h z i s' he
-
-theorem run_dir {cfg : Cfg} (hc : cfg.Ok) : ∀ (ms : List Move) (s s' : Sys), (∀ x, Dir cfg s x) →
-    run cfg s ms = some s' → ∀ x, Dir cfg s' x := by
-  intro ms
-  induction ms with
-  | nil => intro s s' h he; simp [run] at he; subst he; exact h
-  | cons m ms ih =>
-    intro s s' h he
-    simp only [run] at he
-    cases hs : step cfg s m with
-    | none => rw [hs] at he; cases he
-    | some s1 => rw [hs] at he; exact ih s1 s' (step_dir hc h m hs) he
+    · injection he with he; injection he with e1 e2; injection e2 with e2 e3; injection e3 with e3 e4
+      subst e1 e3
+      exact ⟨h.setAck _ _, by intro f hf; simp at hf, o.requestResend, rfl, e4.symm⟩
+  | true =>
+    simp only [hrr, if_true] at he
+    cases hrs : o.resend cfg now send with
+    | error e => rw [hrs] at he; cases he
+    | ok r2 =>
+      obtain ⟨o1', s1', fl1⟩ := r2
+      rw [hrs] at he
+      simp only at he
+      split at he
+      · cases he
+      · injection he with he; injection he with e1 e2; injection e2 with e2 e3; injection e3 with e3 e4
+        subst e1 e3
+        obtain ⟨a, b, c⟩ := h.resend hc hrs
+        exact ⟨a.setAck _ _, b, o1'.requestResend, by simp only [c], by rw [← c]; exact e4.symm⟩
 
 end Tw.NetSim
